@@ -37,6 +37,7 @@ type execShape struct {
 	partialW  nodePred
 	isExec    nodePred
 	isWriteRv nodePred
+	loopIdx   types.Object // index variable of `for v := r.Applied; …; v++` around ExecContext, if that loop form is used
 }
 
 func isDeferOrGo(n ast.Node) bool {
@@ -121,6 +122,22 @@ func execRules(c *Ctx, full bool) {
 	}
 
 	s := loadExecShape(c, "R09a")
+	if s != nil {
+		info := s.fi.Info()
+		for _, ep := range s.execPts {
+			if loop, ok := enclosing(s.pm, ep.b.Nodes[ep.i], isLoop).(*ast.ForStmt); ok {
+				if init, isAs := loop.Init.(*ast.AssignStmt); isAs && len(init.Lhs) == 1 && len(init.Rhs) == 1 && isField(info, init.Rhs[0], pMigrate, "Revision", "Applied") {
+					if post, isInc := loop.Post.(*ast.IncDecStmt); isInc && post.Tok == token.INC {
+						if a, ok1 := init.Lhs[0].(*ast.Ident); ok1 {
+							if b, ok2 := post.X.(*ast.Ident); ok2 && info.ObjectOf(a) == info.ObjectOf(b) {
+								s.loopIdx = info.ObjectOf(a)
+							}
+						}
+					}
+				}
+			}
+		}
+	}
 	if s == nil {
 		return
 	}
@@ -174,6 +191,12 @@ func execRules(c *Ctx, full bool) {
 				ast.Inspect(call.Args[1], func(m ast.Node) bool {
 					if ix, ok := m.(*ast.IndexExpr); ok && isField(info, ix.Index, pMigrate, "Revision", "Applied") {
 						idxOK = true
+					}
+					// an index loop that starts at r.Applied and advances once per executed statement (R09d) indexes the same element
+					if ix, ok := m.(*ast.IndexExpr); ok && s.loopIdx != nil {
+						if id, isID := ast.Unparen(ix.Index).(*ast.Ident); isID && info.ObjectOf(id) == s.loopIdx {
+							idxOK = true
+						}
 					}
 					return true
 				})
@@ -341,23 +364,92 @@ func blockPos(b *cfg.Block, p point) token.Pos {
 func checkResumeLoop(c *Ctx, s *execShape) {
 	info := s.fi.Info()
 	for _, ep := range s.execPts {
-		loop, _ := enclosing(s.pm, ep.b.Nodes[ep.i], isLoop).(*ast.RangeStmt)
-		if loop == nil {
-			c.Unresolved("R09d", "ExecContext in Execute is not inside a range loop")
+		lp := enclosing(s.pm, ep.b.Nodes[ep.i], isLoop)
+		var stmtsObj, valObj, idxObj types.Object
+		var loopPos token.Pos
+		switch loop := lp.(type) {
+		case *ast.RangeStmt:
+			loopPos = loop.Pos()
+			sl, isSl := loop.X.(*ast.SliceExpr)
+			ok := isSl && sl.High == nil && sl.Max == nil && sl.Low != nil && isField(info, sl.Low, pMigrate, "Revision", "Applied")
+			c.Check("R09d", "Execute|range stmts[Applied:]", loop.Pos(), ok, "the statement loop must start at the first statement that was not recorded as applied, stmts[r.Applied:] (got %s)", types.ExprString(loop.X))
+			if !ok {
+				continue
+			}
+			if id, isID := sl.X.(*ast.Ident); isID {
+				stmtsObj = info.ObjectOf(id)
+			}
+			if v, isID := loop.Value.(*ast.Ident); isID {
+				valObj = info.ObjectOf(v)
+			}
+		case *ast.ForStmt:
+			// for v := r.Applied; v < len(stmts); v++ { … stmts[v] … }
+			loopPos = loop.Pos()
+			ok := false
+			if init, isAs := loop.Init.(*ast.AssignStmt); isAs && len(init.Lhs) == 1 && len(init.Rhs) == 1 && isField(info, init.Rhs[0], pMigrate, "Revision", "Applied") {
+				if id, isID := init.Lhs[0].(*ast.Ident); isID {
+					idxObj = info.ObjectOf(id)
+				}
+			}
+			if cond, isBin := loop.Cond.(*ast.BinaryExpr); isBin && idxObj != nil && cond.Op == token.LSS {
+				if x, isID := ast.Unparen(cond.X).(*ast.Ident); isID && info.ObjectOf(x) == idxObj {
+					if a := lenArg(info, cond.Y); a != nil {
+						if id, isID := ast.Unparen(a).(*ast.Ident); isID {
+							stmtsObj = info.ObjectOf(id)
+						}
+					}
+				}
+			}
+			if post, isInc := loop.Post.(*ast.IncDecStmt); isInc && post.Tok == token.INC && idxObj != nil && stmtsObj != nil {
+				if x, isID := post.X.(*ast.Ident); isID && info.ObjectOf(x) == idxObj {
+					ok = true
+				}
+			}
+			// the index is not written in the body
+			if ok {
+				ast.Inspect(loop.Body, func(m ast.Node) bool {
+					switch x := m.(type) {
+					case *ast.AssignStmt:
+						for _, l := range x.Lhs {
+							if id, isID := l.(*ast.Ident); isID && info.ObjectOf(id) == idxObj {
+								ok = false
+							}
+						}
+					case *ast.IncDecStmt:
+						if id, isID := x.X.(*ast.Ident); isID && info.ObjectOf(id) == idxObj {
+							ok = false
+						}
+					}
+					return true
+				})
+			}
+			c.Check("R09d", "Execute|range stmts[Applied:]", loop.Pos(), ok, "the statement loop must start at the first statement that was not recorded as applied (for v := r.Applied; v < len(stmts); v++ with v untouched in the body)")
+			if !ok {
+				continue
+			}
+			// a local holding stmts[v]
+			ast.Inspect(loop.Body, func(m ast.Node) bool {
+				if as, isAs := m.(*ast.AssignStmt); isAs && len(as.Lhs) == 1 && len(as.Rhs) == 1 {
+					if ix, isIx := ast.Unparen(as.Rhs[0]).(*ast.IndexExpr); isIx {
+						if x, isID := ast.Unparen(ix.X).(*ast.Ident); isID && info.ObjectOf(x) == stmtsObj {
+							if i, isID := ast.Unparen(ix.Index).(*ast.Ident); isID && info.ObjectOf(i) == idxObj {
+								if l, isID := as.Lhs[0].(*ast.Ident); isID {
+									valObj = info.ObjectOf(l)
+								}
+							}
+						}
+					}
+				}
+				return true
+			})
+			s.loopIdx = idxObj
+		default:
+			c.Unresolved("R09d", "ExecContext in Execute is not inside a loop over the statements")
 			continue
 		}
-		sl, isSl := loop.X.(*ast.SliceExpr)
-		ok := isSl && sl.High == nil && sl.Max == nil && sl.Low != nil && isField(info, sl.Low, pMigrate, "Revision", "Applied")
-		c.Check("R09d", "Execute|range stmts[Applied:]", loop.Pos(), ok, "the statement loop must range over stmts[r.Applied:] (got %s)", types.ExprString(loop.X))
-		if !ok {
-			continue
-		}
-		// the sliced variable is the result of e.fileStmts
-		id, _ := sl.X.(*ast.Ident)
+		// the looped variable is the result of e.fileStmts
 		fromScan := false
-		var stmtsObj types.Object
-		if id != nil {
-			stmtsObj = info.ObjectOf(id)
+		if stmtsObj != nil {
 			ast.Inspect(s.fi.Decl.Body, func(m ast.Node) bool {
 				as, ok := m.(*ast.AssignStmt)
 				if !ok || len(as.Rhs) != 1 {
@@ -375,135 +467,206 @@ func checkResumeLoop(c *Ctx, s *execShape) {
 				return true
 			})
 		}
-		c.Check("R09d", "Execute|stmts from fileStmts", loop.Pos(), fromScan, "the sliced value is not the result of e.fileStmts(m)")
-		// the text executed is the loop variable's Text
-		val, _ := loop.Value.(*ast.Ident)
+		c.Check("R09d", "Execute|stmts from fileStmts", loopPos, fromScan, "the statements that are executed are not the result of e.fileStmts(m)")
+		// the text executed is the current statement's Text
 		call := nodeHasCall(info, ep.b.Nodes[ep.i], dbExec)
 		okArg := false
-		if val != nil && call != nil && len(call.Args) >= 2 {
-			if se, ok := call.Args[1].(*ast.SelectorExpr); ok && se.Sel.Name == "Text" {
-				if x, ok := se.X.(*ast.Ident); ok && info.ObjectOf(x) == info.ObjectOf(val) {
-					okArg = true
+		if call != nil && len(call.Args) >= 2 {
+			if se, ok := ast.Unparen(call.Args[1]).(*ast.SelectorExpr); ok && se.Sel.Name == "Text" {
+				switch x := ast.Unparen(se.X).(type) {
+				case *ast.Ident:
+					okArg = valObj != nil && info.ObjectOf(x) == valObj
+				case *ast.IndexExpr: // stmts[v].Text
+					if b, isID := ast.Unparen(x.X).(*ast.Ident); isID && info.ObjectOf(b) == stmtsObj && idxObj != nil {
+						if i, isID := ast.Unparen(x.Index).(*ast.Ident); isID && info.ObjectOf(i) == idxObj {
+							okArg = true
+						}
+					}
 				}
 			}
 		}
-		c.Check("R09d", "Execute|exec loopvar.Text", ep.b.Nodes[ep.i].Pos(), okArg, "ExecContext must be given the Text of the loop variable")
-		// the sums loop ranges over the same statements
-		sumsOK := false
-		ast.Inspect(s.fi.Decl.Body, func(m ast.Node) bool {
-			rs, ok := m.(*ast.RangeStmt)
-			if !ok || rs == loop {
-				return true
-			}
-			if x, ok := rs.X.(*ast.Ident); ok && info.ObjectOf(x) == stmtsObj {
-				// body writes h with loopvar.Text and stores sums[i]
-				hasWrite, hasStore := false, false
-				ast.Inspect(rs.Body, func(k ast.Node) bool {
-					if call, ok := k.(*ast.CallExpr); ok {
-						if fn := calleeOf(info, call); fn != nil && fn.Name() == "Write" {
-							hasWrite = true
-						}
-					}
-					if as, ok := k.(*ast.AssignStmt); ok {
-						if ix, ok := as.Lhs[0].(*ast.IndexExpr); ok {
-							if k, ok := rs.Key.(*ast.Ident); ok {
-								if i, ok := ix.Index.(*ast.Ident); ok && info.ObjectOf(i) == info.ObjectOf(k) {
-									hasStore = true
-								}
+		c.Check("R09d", "Execute|exec loopvar.Text", ep.b.Nodes[ep.i].Pos(), okArg, "ExecContext must be given the Text of the current statement of the loop")
+		// the per-statement sums are computed over the same statements: in Execute, or in a module-local helper given them
+		sumsOK := sumsLoopOver(info, s.fi.Decl.Body, stmtsObj, lp)
+		if !sumsOK {
+			for _, hc := range callsIn(s.fi.Decl.Body, true) {
+				hf := calleeOf(info, hc)
+				if hf == nil || hf.Pkg() == nil || hf.Pkg().Path() != pMigrate {
+					continue
+				}
+				for ai, a := range hc.Args {
+					if id, isID := ast.Unparen(a).(*ast.Ident); isID && info.ObjectOf(id) == stmtsObj {
+						if cf := c.FuncInfoOf(hf); cf != nil && cf.Decl.Body != nil {
+							var ps []*ast.Ident
+							for _, fld := range cf.Decl.Type.Params.List {
+								ps = append(ps, fld.Names...)
+							}
+							if ai < len(ps) && sumsLoopOver(cf.Info(), cf.Decl.Body, cf.Info().ObjectOf(ps[ai]), nil) {
+								sumsOK = true
 							}
 						}
 					}
-					return true
-				})
-				if hasWrite && hasStore {
-					sumsOK = true
 				}
 			}
-			return true
-		})
-		c.Check("R09d", "Execute|sums over same stmts", loop.Pos(), sumsOK, "no loop computes the per-statement sums over the same scanned statements (sums[i] for the i-th statement)")
+		}
+		c.Check("R09d", "Execute|sums over same stmts", loopPos, sumsOK, "no loop computes the per-statement sums over the same scanned statements (sums[i] for the i-th statement)")
 	}
 }
 
-func checkDeferredWrite(c *Ctx, s *execShape) {
-	info := s.fi.Info()
-	var deferNode *ast.DeferStmt
-	guarded := false
-	ast.Inspect(s.fi.Decl.Body, func(m ast.Node) bool {
-		d, ok := m.(*ast.DeferStmt)
-		if !ok {
+// sumsLoopOver reports whether body holds a range loop over obj (other than skip) that feeds each
+// element's Text into a running hash and stores the digest at the element's index.
+func sumsLoopOver(info *types.Info, body ast.Node, obj types.Object, skip ast.Node) bool {
+	found := false
+	if obj == nil {
+		return false
+	}
+	ast.Inspect(body, func(m ast.Node) bool {
+		rs, ok := m.(*ast.RangeStmt)
+		if !ok || ast.Node(rs) == skip {
 			return true
 		}
-		fl, ok := d.Call.Fun.(*ast.FuncLit)
-		if !ok {
-			return true
-		}
-		pm := parentMap(fl.Body)
-		for _, call := range callsIn(fl.Body, true) {
-			if fn := calleeOf(info, call); funcIs(fn, pMigrate, "Executor", "writeRevision") {
-				deferNode = d
-				// control-dependent on a negated errors.As(err, *WriteRevisionError)
-				for p := pm[call]; p != nil; p = pm[p] {
-					ifs, ok := p.(*ast.IfStmt)
-					if !ok {
-						continue
+		if x, ok := ast.Unparen(rs.X).(*ast.Ident); ok && info.ObjectOf(x) == obj {
+			hasWrite, hasStore := false, false
+			ast.Inspect(rs.Body, func(k ast.Node) bool {
+				if call, ok := k.(*ast.CallExpr); ok {
+					if fn := calleeOf(info, call); fn != nil && (fn.Name() == "Write" || fn.Name() == "WriteString") {
+						hasWrite = true
 					}
-					un, ok := ifs.Cond.(*ast.UnaryExpr)
-					if !ok || un.Op != token.NOT {
-						continue
-					}
-					mentions := false
-					ast.Inspect(un.X, func(k ast.Node) bool {
-						if e, ok := k.(ast.Expr); ok {
-							if t := info.TypeOf(e); t != nil && typeIs(t, pMigrate, "WriteRevisionError") {
-								mentions = true
+				}
+				if as, ok := k.(*ast.AssignStmt); ok {
+					if ix, ok := as.Lhs[0].(*ast.IndexExpr); ok {
+						if kk, ok := rs.Key.(*ast.Ident); ok {
+							if i, ok := ix.Index.(*ast.Ident); ok && info.ObjectOf(i) == info.ObjectOf(kk) {
+								hasStore = true
 							}
-						}
-						return true
-					})
-					// the call must be in the then-branch
-					if mentions && ifs.Body.Pos() <= call.Pos() && call.End() <= ifs.Body.End() {
-						guarded = true
-					}
-				}
-			}
-		}
-		return true
-	})
-	c.Check("R09e", "Execute|deferred writeRevision unless WriteRevisionError", s.fi.Decl.Pos(), deferNode != nil && guarded, "no deferred closure in Execute writes the revision guarded by !errors.As(err, *WriteRevisionError)")
-	if deferNode != nil {
-		// the closure reads and sets the function's named error result, not a copy
-		var named types.Object
-		if rs := s.fi.Decl.Type.Results; rs != nil {
-			for _, fld := range rs.List {
-				for _, nm := range fld.Names {
-					if o := info.ObjectOf(nm); o != nil && types.Identical(o.Type(), types.Universe.Lookup("error").Type()) {
-						named = o
-					}
-				}
-			}
-		}
-		sets, reads := false, false
-		if fl, ok := deferNode.Call.Fun.(*ast.FuncLit); ok && named != nil {
-			ast.Inspect(fl.Body, func(m ast.Node) bool {
-				switch x := m.(type) {
-				case *ast.AssignStmt:
-					for _, l := range x.Lhs {
-						if id, ok := l.(*ast.Ident); ok && info.ObjectOf(id) == named {
-							sets = true
-						}
-					}
-				case *ast.CallExpr:
-					if fn := calleeOf(info, x); fn != nil && fn.Pkg() != nil && fn.Pkg().Path() == "errors" && fn.Name() == "As" && len(x.Args) > 0 {
-						if id, ok := x.Args[0].(*ast.Ident); ok && info.ObjectOf(id) == named {
-							reads = true
 						}
 					}
 				}
 				return true
 			})
+			if hasWrite && hasStore {
+				found = true
+			}
 		}
-		c.Check("R09e", "Execute|deferred closure works on the named error result", deferNode.Pos(), sets && reads, "the deferred final write must test and set Execute's named result `err` itself (a parameter or copy of it is evaluated when the defer statement runs and its assignment is lost): a failed final revision write would be dropped (reads=%v sets=%v)", reads, sets)
+		return true
+	})
+	return found
+}
+
+func checkDeferredWrite(c *Ctx, s *execShape) {
+	info := s.fi.Info()
+	// Execute's named error result
+	var named types.Object
+	if rs := s.fi.Decl.Type.Results; rs != nil {
+		for _, fld := range rs.List {
+			for _, nm := range fld.Names {
+				if o := info.ObjectOf(nm); o != nil && types.Identical(o.Type(), types.Universe.Lookup("error").Type()) {
+					named = o
+				}
+			}
+		}
+	}
+	var deferNode *ast.DeferStmt
+	guarded, sets, reads := false, false, false
+	ast.Inspect(s.fi.Decl.Body, func(m ast.Node) bool {
+		d, ok := m.(*ast.DeferStmt)
+		if !ok {
+			return true
+		}
+		// the deferred body and the way it reaches Execute's error: the captured named result (closure)
+		// or a pointer parameter bound to &err (named function or method)
+		var body *ast.BlockStmt
+		binfo := info
+		isErrAccess := func(e ast.Expr) bool { return false }
+		switch fun := ast.Unparen(d.Call.Fun).(type) {
+		case *ast.FuncLit:
+			body = fun.Body
+			isErrAccess = func(e ast.Expr) bool {
+				id, ok := ast.Unparen(e).(*ast.Ident)
+				return ok && named != nil && info.ObjectOf(id) == named
+			}
+		default:
+			callee := calleeOf(info, d.Call)
+			if callee == nil || callee.Pkg() == nil || callee.Pkg().Path() != pMigrate {
+				return true
+			}
+			cf := c.FuncInfoOf(callee)
+			if cf == nil || cf.Decl.Body == nil {
+				return true
+			}
+			body, binfo = cf.Decl.Body, cf.Info()
+			var ptr types.Object
+			var ps []*ast.Ident
+			for _, fld := range cf.Decl.Type.Params.List {
+				ps = append(ps, fld.Names...)
+			}
+			for i, a := range d.Call.Args {
+				if un, ok := ast.Unparen(a).(*ast.UnaryExpr); ok && un.Op == token.AND && i < len(ps) {
+					if id, ok := ast.Unparen(un.X).(*ast.Ident); ok && named != nil && info.ObjectOf(id) == named {
+						ptr = binfo.ObjectOf(ps[i])
+					}
+				}
+			}
+			isErrAccess = func(e ast.Expr) bool {
+				st, ok := ast.Unparen(e).(*ast.StarExpr)
+				if !ok || ptr == nil {
+					return false
+				}
+				id, ok := ast.Unparen(st.X).(*ast.Ident)
+				return ok && binfo.ObjectOf(id) == ptr
+			}
+		}
+		if body == nil || nodeHasCall(binfo, body, isCallTo(pMigrate, "Executor", "writeRevision")) == nil {
+			return true
+		}
+		deferNode = d
+		// the write is reachable only through an edge that establishes !errors.As(err, *WriteRevisionError)
+		isAs := func(e ast.Expr) bool {
+			call, ok := ast.Unparen(e).(*ast.CallExpr)
+			if !ok || len(call.Args) != 2 {
+				return false
+			}
+			fn := calleeOf(binfo, call)
+			if fn == nil || fn.Pkg() == nil || fn.Pkg().Path() != "errors" || fn.Name() != "As" {
+				return false
+			}
+			mentions := false
+			ast.Inspect(call.Args[1], func(k ast.Node) bool {
+				if e, ok := k.(ast.Expr); ok {
+					if t := binfo.TypeOf(e); t != nil && typeIs(t, pMigrate, "WriteRevisionError") {
+						mentions = true
+					}
+				}
+				return true
+			})
+			if mentions && isErrAccess(call.Args[0]) {
+				reads = true
+			}
+			return mentions
+		}
+		bf := newFlow(binfo, body)
+		notAs := func(b *cfg.Block, si int) bool {
+			return edgeImplies(b, si, func(e ast.Expr, val bool) bool { return isAs(e) && !val })
+		}
+		isWrite := bf.callNode(isCallTo(pMigrate, "Executor", "writeRevision"))
+		_, unguarded := bf.reachEx([]point{bf.entry()}, nil, isWrite, notAs)
+		_, reachable := bf.reach([]point{bf.entry()}, nil, isWrite, false)
+		guarded = reachable && !unguarded
+		ast.Inspect(body, func(k ast.Node) bool {
+			if as, ok := k.(*ast.AssignStmt); ok {
+				for _, l := range as.Lhs {
+					if isErrAccess(l) {
+						sets = true
+					}
+				}
+			}
+			return true
+		})
+		return true
+	})
+	c.Check("R09e", "Execute|deferred writeRevision unless WriteRevisionError", s.fi.Decl.Pos(), deferNode != nil && guarded, "no deferred call in Execute writes the revision on exactly the paths where the error is not a WriteRevisionError")
+	if deferNode != nil {
+		c.Check("R09e", "Execute|deferred closure works on the named error result", deferNode.Pos(), sets && reads, "the deferred final write must test and set Execute's named result `err` itself (the captured variable, or through a pointer to it; a copy is evaluated when the defer statement runs and its assignment is lost): a failed final revision write would be dropped (reads=%v sets=%v)", reads, sets)
 	}
 	if deferNode == nil {
 		return
@@ -638,11 +801,12 @@ func runC12(c *Ctx) {
 		}
 		c.Check("R12b", "Execute|compare-loop covers [0,Applied)", loop.Pos(), iv != nil && condOK && postOK, "the comparison loop must be `for i := 0; i < r.Applied; i++`")
 		// the guarding if: condition mentions sums[i] and PartialHashes[i] with i == iv
-		ifs, _ := enclosing(s.pm, node, func(n ast.Node) bool { _, ok := n.(*ast.IfStmt); return ok }).(*ast.IfStmt)
+		// the comparison: some condition in the loop body mentions sums[i] and PartialHashes[i] with i == iv
+		// (the mismatch branch may be the then-branch of `!=` or the fall-through after `== … continue`)
 		sameIdx, prefix := false, ""
-		if ifs != nil && iv != nil {
+		if iv != nil {
 			var sumsIdx, phIdx bool
-			ast.Inspect(ifs.Cond, func(m ast.Node) bool {
+			ast.Inspect(loop.Body, func(m ast.Node) bool {
 				switch x := m.(type) {
 				case *ast.IndexExpr:
 					id, ok := x.Index.(*ast.Ident)
